@@ -148,6 +148,14 @@ pub struct Structure {
     pub priorities: Vec<(u32, bool, u32, u8)>,
     /// pseudo-header names of the first HEADERS frame on a non-zero stream (wire order); None = no such frame
     pub pseudo_order: Option<Vec<String>>,
+    /// stream offsets where bytes were planted that read like the start of a connection (the preface): chunk cuts
+    /// are placed exactly there
+    #[serde(default)]
+    pub hot: Vec<usize>,
+    /// a second header block (trailers) follows on the first message's stream
+    pub has_trailers: bool,
+    /// an RST_STREAM frame follows the first message's head on its stream
+    pub has_rst_stream: bool,
     /// flags of that HEADERS frame
     pub headers_flags: u8,
     /// ordered (name,value) list encoded in the first request/response header block
@@ -251,6 +259,14 @@ pub fn connection_start(r: &mut Rng, o: &Opts) -> (Vec<u8>, Structure) {
     // control frames before HEADERS
     let mut pre: Vec<Vec<u8>> = vec![];
     let mut settings = random_settings(r, o.odd_order);
+    // one connection start in twelve: the first SETTINGS frame opens with four parameters (unknown ids, to be kept
+    // verbatim) whose 24 bytes spell the connection preface - the preface somewhere else than at the very start
+    let preface_in_settings = r.chance(1, 12);
+    if preface_in_settings {
+        let mut v: Vec<(u16, u32)> = PREFACE.chunks(6).map(|c| (u16::from_be_bytes([c[0], c[1]]), u32::from_be_bytes([c[2], c[3], c[4], c[5]]))).collect();
+        v.extend(settings.iter().cloned());
+        settings = v;
+    }
     if o.announce_max_frame {
         settings.retain(|(id, _)| *id != 5);
         settings.push((5, *r.pick(&[16385u32, 65536, 1 << 20, (1 << 24) - 1])));
@@ -299,11 +315,19 @@ pub fn connection_start(r: &mut Rng, o: &Opts) -> (Vec<u8>, Structure) {
     for k in 0..o.leading_frames {
         out.extend_from_slice(&frame(0x20 + (k % 7) as u8, 0, 0, &[]));
     }
+    if o.odd_order && r.chance(1, 8) {
+        // an ignorable frame ahead of SETTINGS whose payload is the connection preface
+        st.hot.push(out.len() + 9);
+        out.extend_from_slice(&frame(0x21, 0, 0, PREFACE));
+    }
     for f in &leading {
         out.extend_from_slice(f);
     }
     for f in &pre {
         out.extend_from_slice(f);
+    }
+    if preface_in_settings {
+        st.hot.push(out.len() + 9);
     }
     out.extend_from_slice(&settings_frame);
     st.first_settings = Some(settings.clone());
@@ -502,10 +526,26 @@ pub fn connection_start(r: &mut Rng, o: &Opts) -> (Vec<u8>, Structure) {
     st.pseudo_order = Some(list.iter().filter(|(n, _)| n.starts_with(':')).map(|(n, _)| n.clone()).collect());
     st.header_list = list;
 
-    // trailing DATA
+    // trailing DATA, and now and then a second header block on the same stream behind it: trailers (a literal
+    // field with a new name, no table use), which are not part of the message head
     if flags & F_END_STREAM == 0 && r.chance(1, 2) {
         let n = r.urange(1, 200);
-        out.extend_from_slice(&frame(0, F_END_STREAM, sid, &r.bytes(n)));
+        let trailers = r.chance(1, 3);
+        out.extend_from_slice(&frame(0, if trailers { 0 } else { F_END_STREAM }, sid, &r.bytes(n)));
+        if trailers {
+            let (name, value) = (*r.pick(&["x-trailer", "grpc-status", "server-timing", "x-checksum"]), format!("{}", r.below(1000)));
+            let mut tb = vec![0x00u8, name.len() as u8];
+            tb.extend_from_slice(name.as_bytes());
+            tb.push(value.len() as u8);
+            tb.extend_from_slice(value.as_bytes());
+            out.extend_from_slice(&frame(1, F_END_HEADERS | F_END_STREAM, sid, &tb));
+            st.has_trailers = true;
+        }
+    } else if r.chance(1, 10) {
+        // the peer withdraws the stream again right after its head: RST_STREAM, mostly CANCEL
+        let code: u32 = *r.pick(&[8u32, 8, 8, 0, 5, 7, 11]);
+        out.extend_from_slice(&frame(3, 0, sid, &code.to_be_bytes()));
+        st.has_rst_stream = true;
     }
     // settings may change later in the connection: one stream in five sends another SETTINGS frame behind the first
     // message (header table size 0 or small, other parameters) - it governs what follows, not what came before
